@@ -1,6 +1,5 @@
 import itertools
 from ...config import Configuration, ConfigParser
-from ...config._config_parser import _TableFormSection
 
 import sys
 
@@ -60,12 +59,11 @@ def _list_items(cp):
     eam_dens_items = _list_eam_dens(cp)
     items.extend(eam_dens_items)
 
-  # [Table-Form:NAME] sections are neither in parsed_sections (their names vary) nor orphans
-  table_form_sections = [s for s in cp.raw_config_parser.sections() if _TableFormSection.is_relevant_section(s)]
-  items.extend(_parse_raw(cp, table_form_sections))
-
-  orphan_sections = cp.orphan_sections
-  raw_items = _parse_raw(cp, orphan_sections)
+  # Every other section of the file, in file order: [Table-Form:NAME] sections, [Species] and
+  # sections that are not interpreted by this package
+  listed_sections = ["Pair", "Potential-Form", "Tabulation", "EAM-Embed", "EAM-Density"]
+  other_sections = [s for s in cp.raw_config_parser.sections() if not s in listed_sections]
+  raw_items = _parse_raw(cp, other_sections)
   items.extend(raw_items)
 
   # [Variables] is the parser's default section so is not returned by sections()
